@@ -166,6 +166,8 @@ def run(rep, tier):
     rep.rule('R02.10', 'exit sets follow the transition domain: the engines\' getTransitionDomain has the specified quantifier shape (same rule as C01 R01.11)')
     rep.rule('R02.11', 'set-valued relations are used as sets: inside step() the completion / target / ancestor sets of a state or transition are only used whole (range-for, begin()..end() pair, whole-container copy), never through their first element alone')
     rep.rule('R02.12', 'closure loops visit every member: no loop of step() that walks an ordered set with an iterator assigns that iterator from the result of an insertion into the same set (the walk would continue at the insertion point and skip the members in between); closures are computed while walking a copy or by forward walks with plain increments')
+    rep.rule('R02.16', 'remembered history is a snapshot: when a history\'s parent is exited, every member of the history\'s completion is either recorded (active) or forgotten (not active); no path through one iteration of that loop leaves the old record of the member in place')
+    rep.rule('R02.15', 'reset() (and with it deserialize(), which resets and then only inserts) re-initialises the configuration views and the remembered history: a history that survives is merged with the restored one and names states that were never active together (same rule as C10 R10.3)')
     rep.rule('R02.13', 'deep completion sees direct children: the fast engine\'s children relation is set for the direct parent only (same rule as C03 R03.6; with all descendants in it the test "completion has no child of this state" never fires and ancestors of deep initial targets are not entered)')
     rep.rule('R02.14', 'a compound state keeps an active child: a history pseudo-state takes its default transition exactly when nothing is remembered (same rule as C01 R01.16)')
     rep.assume('legality for every chart and history needs the values of the entry set: not decided')
@@ -188,6 +190,15 @@ def run(rep, tier):
         if not brk:
             rep.ok('R02.11', eng + '|deep completion', 'every completion member contributes its ancestors (%d loop(s))' % n)
     rep.minimum('R02.11', nl, 2, 'loops adding the ancestors of completion members in the engines')
+    # R02.16: a history's record is rewritten completely when its parent is exited
+    hl = _skel.history_rewrite_total(fb, fb.fn('uscxml::LargeMicroStep::step'))
+    rep.minimum('R02.16', len(hl), 1, 'member-wise history rewrite loops in LargeMicroStep::step')
+    for lp_, w_ in hl:
+        rep.check(w_ is None, 'R02.16', 'LargeMicroStep|history rewrite decides every member', locstr(lp_), 'one iteration of the loop over a history\'s completion %s' % (
+            'always inserts or erases the member' if w_ is None else 'can SKIP the member (neither insert nor erase): a state remembered from an earlier exit survives although it was not active this time, and the history names states that were never active together'))
+    # R02.15: what the entry set is computed from starts empty after reset() (deserialize() resets, then only inserts)
+    from .C10 import reset_coverage
+    reset_coverage(rep, fb, 'R02.15', only={'_configuration', '_configurationPostFix', '_history', '_invocations', '_initializedData'})
     # R02.13 / R02.14: defects of relations and conditions that show as an illegal configuration (shared rules)
     from .C03 import fast_children
     fast_children(rep, fb, 'R02.13')
